@@ -7,7 +7,7 @@ a sorted triangle's `groupBy` by metadata gives its contiguous runs.
 import Bermuda.Lemmas.JsonIODecode
 import Bermuda.Lemmas.JsonIOGroup
 namespace Bermuda.JsonIO
-open Bermuda Bermuda.Spec.C07 Std
+open Bermuda Bermuda.Spec.C07 Std Bermuda.GroupL
 
 /-! ### writing then reading plainly: values -/
 
